@@ -21,7 +21,8 @@ RULE = ('get_cycle_stat: exhaustive label vectors over {-1,0,1,2} of length <= L
         'functions (np.mean, np.max, np.sum, len, first, last, lambda v: sum(v*v)-3*v[0]) x out in {cycles, samples}; random recordings up to 600 samples '
         'with contiguous or arbitrary labellings, gaps anywhere, skipped labels. phase_align: 1-12 cycles of 8..400 samples (2..7 in the short family), '
         'jittered strictly increasing phase, quantity affine in phase or a smooth function of phase, npoints 2..64, cycles given as a label vector with gaps '
-        'or detected by default. bin_by_phase: 2..64 bins or custom increasing edges, phases incl. exact edge values and 2*pi, integer observations. '
+        'or detected by default; interp_kind linear (model + instance) or slinear/quadratic/cubic (instance only). bin_by_phase: 2..64 bins or custom '
+        'increasing edges, phases incl. exact edge values and 2*pi, integer observations, 1-3 columns, optional positive weights. '
         'malformed: length mismatch, empty input, skipped labels / one-sample cycles in phase_align. '
         'A case is non-trivial when it has an unlabelled gap and at least two cycles (stat), at least two cycles of different length (align), '
         'a sample in the last bin (binning).')
